@@ -14,6 +14,7 @@ REQUIRED = ["pe_total_match", "pe_total_build", "pe_total_validate", "pe_total_r
             "forged_mapping_rejected", "surplus_entry_rejected", "forged_entry_rejected", "incomplete_map_rejected",
             "field_values_faithful", "two_capture_groups_is_error",
             "match_sound_rules", "match_sound_requirements", "match_error_requirements", "wf_count_pos", "match_complete_or_error", "match_complete_or_error_rules",
+            "credentials_required_of_descriptors", "build_reports_missing_credentials", "validate_rejects_without_complete_selection",
             "wallet_verifier_agree_partial", "wallet_verifier_disagree_witness",
             "old_code_max_zero_selects_all", "old_code_min_above_max_returns_partial",
             "fact_apply_max_test_first", "fact_apply_rejects_min_above_max",
@@ -213,6 +214,49 @@ def field_value_ok(fld, tree, retbl, got):
     return got in ok
 
 
+def ref_sr(sr, pd, cand_of):
+    """reference reading of one submission requirement on the candidates: (fulfillable, number of credentials selected > 0).
+    cand_of: descriptor index -> candidate credential or None"""
+    if sr["nested"]:
+        subs = [ref_sr(n, pd, cand_of) for n in sr["nested"]]
+        total = len(subs)
+        avail = sum(1 for ok, nonempty in subs if ok and nonempty)
+    else:
+        members = [i for i, d in enumerate(pd["descs"]) for g in d["group"] if g == sr["from"]]
+        total = len(members)
+        avail = sum(1 for i in members if cand_of[i] is not None and not cand_of[i]["selEmpty"])
+    if sr["rule"] == "all":
+        return avail == total, total > 0
+    if "count" in sr:
+        return avail >= sr["count"], sr["count"] > 0
+    if "min" in sr and "max" in sr and sr["max"] < sr["min"]:
+        return False, False
+    if "min" in sr and avail < sr["min"]:
+        return False, False
+    taken = min(avail, sr["max"]) if "max" in sr else avail
+    return True, taken > 0
+
+
+def complete_selection_exists(pd, wallet, retbl):
+    """reference: does a selection exist that maps every input descriptor (no submission requirements) or fulfils
+    every submission requirement? raises Undecided when the evaluation itself cannot be judged"""
+    cand_of = ref_candidates(pd, wallet, retbl)
+    if not pd["srs"]:
+        return all(c is not None for c in cand_of)
+    referenced = set()
+
+    def collect(sr):
+        if sr["from"]:
+            referenced.add(sr["from"])
+        for n in sr["nested"]:
+            collect(n)
+    for sr in pd["srs"]:
+        collect(sr)
+    if any(g not in referenced for d in pd["descs"] for g in d["group"]):
+        return False
+    return all(ref_sr(sr, pd, cand_of)[0] for sr in pd["srs"])
+
+
 def sr_pick_without_max(sr):
     if sr["rule"] == "pick" and "count" not in sr and "max" not in sr:
         return True
@@ -395,6 +439,17 @@ def run(ctx):
                     counts["oracle-undecided"] += 1
         elif kind == "build":
             last_build = (op, line)
+            # the wallet reports missing credentials instead of an (empty / partial) submission: when the reference says that
+            # NO wallet holds a complete selection for a definition that has input descriptors, Build must fail
+            if line.startswith("build ok") and pd["descs"] and len({d["id"] for d in pd["descs"]}) == len(pd["descs"]):
+                try:
+                    ws = [[case["creds"][k] for k in w] for w in op.get("wallets", [])]
+                    if ws and not any(complete_selection_exists(pd, w, retbl) for w in ws):
+                        report("C12:build-ok-without-complete-selection",
+                               f"Build returned a submission ({line[6:80]}) although no wallet holds a complete selection for the definition", i)
+                    counts["build-complete-checked"] += 1
+                except Undecided:
+                    counts["oracle-undecided"] += 1
         elif kind == "validate" and not op.get("envErr"):
             counts["validate:" + op.get("mut", "")] += 1
             unique_ids = len({d["id"] for d in pd["descs"]}) == len(pd["descs"])
@@ -424,6 +479,16 @@ def run(ctx):
                     report("C12:accepted-incomplete-mapping", f"accepted although descriptors {sorted(set(accepted) - set(ids))} are not mapped", i)
                 elif len(ids) != len(accepted) and unique_ids:
                     report("C12:accepted-duplicate-descriptor-entry:surplus", "accepted although the descriptor map has more than one entry for an input descriptor", i)
+                # an accepted submission implies that some presentation of the envelope holds a complete selection for the
+                # definition (an empty / incomplete descriptor map over decoys must be rejected)
+                if pd["descs"]:
+                    try:
+                        if not any(complete_selection_exists(pd, p, retbl) for p in pres):
+                            report("C12:accepted-without-complete-selection",
+                                   f"accepted {accepted} although no presentation of the envelope holds a complete selection for the definition", i)
+                        counts["accepted-complete-checked"] += 1
+                    except Undecided:
+                        counts["oracle-undecided"] += 1
                 # the accepted mapping is what reference matching selects on the first presentation that matches (basic mode)
                 if not pd["srs"] and unique_ids and len(pres) == 1:
                     try:
